@@ -412,15 +412,32 @@ func (p *Pair) String() string {
 func sortedPairStrings(pairs map[*Ident]Expr) []string {
 	// NOTE: sort kwargs by ident name (otherwise order is random!)
 	type p struct {
-		k string
-		v string
+		k   string
+		v   string
+		pos Position
 	}
 
 	kwargs := []p{}
 	for k, arg := range pairs {
-		kwargs = append(kwargs, p{k: k.String(), v: arg.String()})
+		kwarg := p{k: k.String(), v: arg.String()}
+		if k.Src != nil {
+			kwarg.pos = k.Src.Pos
+		}
+		kwargs = append(kwargs, kwarg)
 	}
-	sort.Slice(kwargs, func(i, j int) bool { return kwargs[i].k < kwargs[j].k })
+	sort.Slice(kwargs, func(i, j int) bool {
+		// NOTE: duplicated names are kept in source order (otherwise their order is random, too!)
+		if kwargs[i].k != kwargs[j].k {
+			return kwargs[i].k < kwargs[j].k
+		}
+		if kwargs[i].pos.Line != kwargs[j].pos.Line {
+			return kwargs[i].pos.Line < kwargs[j].pos.Line
+		}
+		if kwargs[i].pos.Column != kwargs[j].pos.Column {
+			return kwargs[i].pos.Column < kwargs[j].pos.Column
+		}
+		return kwargs[i].v < kwargs[j].v
+	})
 
 	sortedStrings := []string{}
 	for _, kwarg := range kwargs {
